@@ -662,3 +662,91 @@ Proof.
   - apply post_next; [|cbn [st_bonus length] in *; lia].
     cbn [inv]. split; [apply G; reflexivity|apply snoc_nonnil || (destruct t''; discriminate)].
 Qed.
+
+(* ---------- all arms together ---------- *)
+Theorem step_post : forall s, Inv s -> post (mu s) (step s).
+Proof.
+  intros [d st m p t] H. unfold Inv in H. cbn [pst_ pparent ptape] in H.
+  unfold mu. cbn [pdata pst_].
+  destruct st.
+  - rewrite Nat.add_0_r. apply step_SKey; assumption.
+  - apply step_SKvs; assumption.
+  - rewrite Nat.add_0_r. apply step_SObjVal; assumption.
+  - rewrite Nat.add_0_r. apply step_SArrVal; assumption.
+  - apply step_SOpen; assumption.
+Qed.
+
+Corollary step_preserves_inv : forall s s', Inv s -> step s = Next s' -> Inv s' /\ mu s' < mu s.
+Proof. intros s s' H E. pose proof (step_post s H) as P. rewrite E in P. exact P. Qed.
+
+Corollary step_done_closed : forall s t, Inv s -> step s = Done t -> closed 0 t.
+Proof. intros s t H E. pose proof (step_post s H) as P. rewrite E in P. exact P. Qed.
+
+Corollary step_no_crash : forall s site, Inv s -> step s <> Crash site.
+Proof. intros s site H E. pose proof (step_post s H) as P. rewrite E in P. exact P. Qed.
+
+Lemma ploop_post : forall fuel s, Inv s -> mu s < fuel ->
+  match ploop fuel s with
+  | Ok t => closed 0 t
+  | Err _ => True
+  | _ => False
+  end.
+Proof.
+  induction fuel as [|f IH]; intros s H L; [lia|].
+  cbn [ploop]. pose proof (step_post s H) as P.
+  destruct (step s) as [s'|t|e|x]; cbn [post] in P.
+  - destruct P as [H' L']. apply IH; [assumption|lia].
+  - exact P.
+  - exact I.
+  - exact P.
+Qed.
+
+(* without the fuel bound: whatever the fuel, no Panic / OOB, and Ok tapes are closed *)
+Lemma ploop_post_anyfuel : forall fuel s, Inv s ->
+  match ploop fuel s with
+  | Ok t => closed 0 t
+  | Err _ | OutOfFuel => True
+  | _ => False
+  end.
+Proof.
+  induction fuel as [|f IH]; intros s H; [exact I|].
+  cbn [ploop]. pose proof (step_post s H) as P.
+  destruct (step s) as [s'|t|e|x]; cbn [post] in P.
+  - destruct P as [H' L']. apply IH; assumption.
+  - exact P.
+  - exact I.
+  - exact P.
+Qed.
+
+Lemma Inv_init : forall data, Inv (mkps data SKey false 0 []).
+Proof. intros. unfold Inv. cbn. apply cr_top. apply cl_nil. Qed.
+
+Lemma parse_post : forall input,
+  match parse input with
+  | Ok (t, _) => closed 0 t
+  | Err _ => True
+  | _ => False
+  end.
+Proof.
+  intros input. unfold parse.
+  set (bom := match input with 239%N :: 187%N :: 191%N :: _ => true | _ => false end).
+  set (data := if bom then skipn 3 input else input).
+  assert (Ld : length data <= length input).
+  { subst data. destruct bom; [apply skipn_len_le|lia]. }
+  pose proof (ploop_post (2 * length input + 8) (mkps data SKey false 0 []) (Inv_init data)) as P.
+  unfold mu in P. cbn [pdata pst_] in P. specialize (P ltac:(lia)).
+  destruct (ploop (2 * length input + 8) (mkps data SKey false 0 [])); cbn; exact P.
+Qed.
+
+Theorem parse_closed : forall input t bom, parse input = Ok (t, bom) -> closed 0 t.
+Proof. intros input t bom E. pose proof (parse_post input) as P. rewrite E in P. exact P. Qed.
+
+Theorem parse_wf : forall input t bom, parse input = Ok (t, bom) -> tape_wf t.
+Proof. intros. apply closed_tape_wf. eapply parse_closed; eauto. Qed.
+
+Theorem parse_no_crash : forall input,
+  match parse input with Panic _ | OOB _ | OutOfFuel => False | _ => True end.
+Proof.
+  intros input. pose proof (parse_post input) as P.
+  destruct (parse input) as [[t b]| | | |]; auto.
+Qed.
